@@ -34,7 +34,7 @@ Extraction "spec816.ml" Spec816.step Spec816.bcd_defined Spec816.decimal_arith S
 TABLES_V = """(* per-run: the regenerated opcode tables of both interpreters against the data-sheet matrix *)
 From Coq Require Import ZArith List.
 From Spec Require Import ISA.
-From Gen Require GenCpu65 GenCpuAlt.
+From Gen Require Import GenCpu65 GenCpuAlt.
 Lemma tables65_exec : table_agrees_exec GenCpu65.instr_table = true. Proof. vm_compute. reflexivity. Qed.
 Lemma tablesAlt_exec : table_agrees_exec GenCpuAlt.instr_table = true. Proof. vm_compute. reflexivity. Qed.
 Definition disasm65 := Eval vm_compute in disasm_disagreements GenCpu65.instr_table.
@@ -45,7 +45,7 @@ Print disasmAlt.
 
 TABLES_DIAG_V = """From Coq Require Import ZArith List.
 From Spec Require Import ISA.
-From Gen Require GenCpu65 GenCpuAlt.
+From Gen Require Import GenCpu65 GenCpuAlt.
 Definition exec65 := Eval vm_compute in (rows_complete GenCpu65.instr_table, exec_disagreements GenCpu65.instr_table).
 Definition execAlt := Eval vm_compute in (rows_complete GenCpuAlt.instr_table, exec_disagreements GenCpuAlt.instr_table).
 Print exec65.
@@ -145,7 +145,7 @@ def run_driver(driver, d, fields, label, gofile):
 
 def differential(ck, harness, driver, fields, tier, seed):
     """Run the generators + both interpreters + the extracted spec.  Returns (diffs, stats, case_lines)."""
-    sizes = {"quick": dict(variants=60, multi=300, svariants=40, progs=500, bcd=2000),
+    sizes = {"quick": dict(variants=160, multi=800, svariants=120, progs=1500, bcd=4000),
              "thorough": dict(variants=1500, multi=6000, svariants=500, progs=8000, bcd=-6000)}[tier if tier in ("quick", "thorough") else "quick"]
     work = os.path.join(SPECDIR, "run")
     shutil.rmtree(work, ignore_errors=True)
